@@ -843,7 +843,7 @@ class Exec:
             self.pc.append(z3.Not(c))
             return self.expr(n.orelse)
         # try a value-level merge when both arms are side-effect free scalars
-        if _pure_expr(n.body) and _pure_expr(n.orelse):
+        if not self.opts.get("no_ifexp_merge") and _pure_expr(n.body) and _pure_expr(n.orelse):
             mark = len(self.pc)
             nob = len(self.obligations)
             a = self.scoped(c, lambda: self.expr(n.body))
